@@ -285,6 +285,7 @@ func (g *Generator) buildFlattenedOneofSchema(
 
 		refs := g.buildFlattenedVariantSchemas(message, info, msgName, oneofFields)
 		allVariantRefs = append(allVariantRefs, refs...)
+		allVariantRefs = append(allVariantRefs, g.buildFlattenedUnsetSchema(message, info, msgName, oneofFields))
 		allMappings = append(allMappings, info)
 	}
 
@@ -357,6 +358,31 @@ func (g *Generator) buildFlattenedVariantSchemas(
 	}
 
 	return refs
+}
+
+// buildFlattenedUnsetSchema registers the schema of a message whose flattened oneof is not set (the
+// common fields, no discriminator) and returns a reference to it: oneOf demands exactly one match,
+// and the default value of the message, which has no variant, is a value of the message too.
+func (g *Generator) buildFlattenedUnsetSchema(
+	message *protogen.Message,
+	info *annotations.OneofDiscriminatorInfo,
+	msgName string,
+	oneofFields map[string]bool,
+) *base.SchemaProxy {
+	props := orderedmap.New[string, *base.SchemaProxy]()
+	for _, field := range message.Fields {
+		if oneofFields[string(field.Desc.Name())] {
+			continue
+		}
+		props.Set(field.Desc.JSONName(), g.convertField(field))
+	}
+	name := msgName + "_unset"
+	g.schemas.Set(name, base.CreateSchemaProxy(&base.Schema{
+		Type:       []string{"object"},
+		Properties: props,
+		Not:        base.CreateSchemaProxy(&base.Schema{Required: []string{info.Discriminator}}),
+	}))
+	return base.CreateSchemaProxyRef("#/components/schemas/" + name)
 }
 
 // buildFlattenedDiscriminator creates the discriminator object with mapping for a flattened oneof.
@@ -457,11 +483,18 @@ func (g *Generator) buildNestedOneofVariants(
 			} else {
 				variantProps.Set(fieldJSONName, g.convertScalarField(variant.Field))
 			}
+			// exactly one branch must match: a branch demands its own member
 			oneOfSchemas = append(oneOfSchemas, base.CreateSchemaProxy(&base.Schema{
 				Type:       []string{"object"},
 				Properties: variantProps,
+				Required:   []string{fieldJSONName},
 			}))
 		}
+		// ... and a message whose oneof is not set (no discriminator) matches the last one
+		oneOfSchemas = append(oneOfSchemas, base.CreateSchemaProxy(&base.Schema{
+			Type: []string{"object"},
+			Not:  base.CreateSchemaProxy(&base.Schema{Required: []string{info.Discriminator}}),
+		}))
 	}
 
 	return oneOfSchemas, discInfo
